@@ -62,6 +62,12 @@ T.update({
             "abstract interpretation of the metaclass protocol (inductive step against a table model)"),
 })
 
+HIST = {"C01", "C02", "C03", "C04", "C05", "C06", "C07", "C08", "C09", "C10", "C13", "C14", "C15", "C16"}
+HIST_TEXT = (" Composition (DESIGN.md 3.3): bounded histories through the public API on the whole stack (build; flag schedule incl. toggling around the mutation and a copy "
+             "through the pickle protocol into fresh class-level state; observe; every public mutator; observe; thorough: two mutations) for four vertex families, each "
+             "observation compared with a reference model replaying the same calls - this part is an exploration of a stated scope, not a proof.")
+HIST_TECH = " + bounded abstract evaluation of whole-stack histories against a reference model"
+
 REASONS_PENDING = "check under construction in this build phase (see DESIGN.md section 5 for the planned static rule)"
 
 
@@ -72,6 +78,8 @@ def main():
     for pid in ids:
         if pid in T and (V / "rules" / f"{pid.lower()}.py").exists():
             level, text, ref, tech = T[pid][:4]
+            if pid in HIST:
+                text, tech = text + HIST_TEXT, tech + HIST_TECH
             note = T[pid][4] if len(T[pid]) > 4 else NOTE_AE
             checks.append({
                 "property_id": pid,
